@@ -32,7 +32,7 @@ func dirtyTraceCases(c *Ctx, mode string) {
 	if mode != "c01" {
 		return
 	}
-	for _, cs := range []string{"box-issue-asset/box-first", "box-issue-asset/transfer-first", "box-contract-sstore/box-first", "box-contract-sstore/transfer-first", "kept-failed-call/invalid", "kept-failed-call/revert"} {
+	for _, cs := range []string{"box-issue-asset/box-first", "box-issue-asset/transfer-first", "box-contract-sstore/box-first", "box-contract-sstore/transfer-first", "box-contract-sstore-noop/box-first", "box-contract-sstore-noop/transfer-first", "kept-failed-call/invalid", "kept-failed-call/revert"} {
 		res := Safe(func() string { dirtyTraceCase(c, cs); return "ok" })
 		c.Count("c07:dirtytrace:" + cs + ":" + res)
 		if res != "ok" {
@@ -88,18 +88,22 @@ func dirtyTraceCase(c *Ctx, cs string) {
 	})
 	// C: CALLDATASIZE ISZERO PUSH1 0x0a JUMPI PUSH1 1 PUSH1 0 SSTORE JUMPDEST STOP — stores only when called with data
 	rtC := []byte{0x36, 0x15, 0x60, 0x0a, 0x57, 0x60, 0x01, 0x60, 0x00, 0x55, 0x5b, 0x00}
+	// C0: the same, but the value stored is ZERO: a write that changes nothing (its log is not "valuable"), yet it queues a pending write
+	rtC0 := []byte{0x36, 0x15, 0x60, 0x0a, 0x57, 0x60, 0x00, 0x60, 0x00, 0x55, 0x5b, 0x00}
 	rtC2 := []byte{0x60, 0x01, 0x60, 0x00, 0x55, 0xfe}                         // SSTORE(0,1); INVALID
 	rtC3 := []byte{0x60, 0x01, 0x60, 0x00, 0x55, 0x60, 0x00, 0x60, 0x00, 0xfd} // SSTORE(0,1); REVERT(0,0)
 	createAsset := txCreateAsset(uk, 1, true, true, TxOpt{Exp: exp(), Msg: msg()})
 	mkC, mkC2, mkC3 := txCreate(uk, nil, initCodeFor(rtC), TxOpt{Exp: exp(), Msg: msg()}), txCreate(uk, nil, initCodeFor(rtC2), TxOpt{Exp: exp(), Msg: msg()}), txCreate(uk, nil, initCodeFor(rtC3), TxOpt{Exp: exp(), Msg: msg()})
-	b2, inv2 := mine(types.Transactions{createAsset, mkC, mkC2, mkC3})
-	if len(inv2) != 0 || len(b2.Txs) != 4 {
+	mkC0 := txCreate(uk, nil, initCodeFor(rtC0), TxOpt{Exp: exp(), Msg: msg()})
+	b2, inv2 := mine(types.Transactions{createAsset, mkC, mkC2, mkC3, mkC0})
+	if len(inv2) != 0 || len(b2.Txs) != 5 {
 		panic(fmt.Sprintf("setup block 2: %d txs included, %d refused", len(b2.Txs), len(inv2)))
 	}
 	assetCode := createAsset.Hash()
 	C, C2, C3 := crypto.CreateContractAddress(U, mkC.Hash()), crypto.CreateContractAddress(U, mkC2.Hash()), crypto.CreateContractAddress(U, mkC3.Hash())
+	C0 := crypto.CreateContractAddress(U, mkC0.Hash())
 	base := account.NewManager(parent.Hash(), m.DB)
-	for _, ca := range []common.Address{C, C2, C3} {
+	for _, ca := range []common.Address{C, C2, C3, C0} {
 		a := base.GetAccount(ca)
 		if code, _ := a.GetCode(); len(code) == 0 || a.GetStorageRoot() != (common.Hash{}) {
 			panic("setup: the contract was not deployed, or it is not storage-less")
@@ -124,7 +128,7 @@ func dirtyTraceCase(c *Ctx, cs string) {
 		// the scenario is only reached if the box's first sub-tx really writes into a trie of the watched account: mined on its
 		// own (dry run, nothing stored) it must be included and publish a log of that kind for the account
 		pb, pinv, err := m.Build(parent, t, types.Transactions{probe.Clone()}, nil)
-		wrote := false
+		wrote := probeLog == 0 // 0: the write changes nothing and publishes no log; being included is all the dry run can show
 		if err == nil {
 			for _, l := range pb.ChangeLogs {
 				wrote = wrote || (l.Address == watched && l.LogType == probeLog)
@@ -189,6 +193,17 @@ func dirtyTraceCase(c *Ctx, cs string) {
 			cands = types.Transactions{pay, box}
 		}
 		judgeDiscard(cands, box, R, "box[IssueAssetTx to the fresh address R, overdraft] + transfer to R", issue, account.EquityLog)
+	case "box-contract-sstore-noop/box-first", "box-contract-sstore-noop/transfer-first":
+		// the discarded write is SSTORE(0,0) on a slot never written: nothing changes, no log is worth publishing, but a pending write is
+		// queued; if the revert does not take it back, Finalise turns the zero storage root into the empty-trie hash on the miner only
+		store := txCall(uk, C0, nil, []byte{0x01}, TxOpt{Exp: exp(), GasLimit: 200000, Msg: msg()})
+		box := txBox(uk, types.Transactions{store, overdraft()}, TxOpt{Exp: exp(), Msg: msg()})
+		pay := txTransfer(w.FounderKey, C0, lemo(1), TxOpt{Exp: exp(), GasLimit: 200000, Msg: msg()})
+		cands := types.Transactions{box, pay}
+		if cs == "box-contract-sstore-noop/transfer-first" {
+			cands = types.Transactions{pay, box}
+		}
+		judgeDiscard(cands, box, C0, "box[call that stores ZERO into a never-written slot of the storage-less contract C0, overdraft] + plain transfer to C0", store, 0)
 	case "box-contract-sstore/box-first", "box-contract-sstore/transfer-first":
 		store := txCall(uk, C, nil, []byte{0x01}, TxOpt{Exp: exp(), GasLimit: 200000, Msg: msg()})
 		box := txBox(uk, types.Transactions{store, overdraft()}, TxOpt{Exp: exp(), Msg: msg()})
